@@ -7,6 +7,30 @@ Every type maps to exactly one z3 sort:
 """
 import z3
 
+# Quantifier patterns may not contain if-then-else; heap arrays can (stored values / indices such as a
+# normalised negative index). All quantifiers in pyvc and in the contracts go through this wrapper, which keeps
+# the requested triggers when they are legal and otherwise lets z3 choose its own.
+_z3_forall = z3.ForAll
+_z3_exists = z3.Exists
+
+
+def _safe_quant(orig):
+    def q(vs, body, weight=1, qid="", skid="", patterns=[], no_patterns=[]):
+        if patterns:
+            try:
+                return orig(vs, body, weight, qid, skid, patterns, no_patterns)
+            except z3.Z3Exception:
+                return orig(vs, body, weight, qid, skid, [], no_patterns)
+        return orig(vs, body, weight, qid, skid, patterns, no_patterns)
+
+    return q
+
+
+if not getattr(z3, "_pyvc_safe_quantifiers", False):
+    z3.ForAll = _safe_quant(_z3_forall)
+    z3.Exists = _safe_quant(_z3_exists)
+    z3._pyvc_safe_quantifiers = True
+
 
 class Ty:
     def __repr__(self):
